@@ -9,7 +9,7 @@ from vlib import core, gen
 PROP = "C12"
 META = {
     "technique": "Coq proof: byte-exact codec round trip; wire/script invariant of the two initialiser state machines over ALL schedules of thread steps, select/timer events, stalls, deaths and file removals; tie: regenerated constants + differential runs of the real generateShmMetadata/extractShmMetadata and of real newSession ends against scripted byte-level peers + real pairings (also across two processes) with write-through/read-back and fd/maps//dev/shm census",
-    "level_text": "PARTIAL. Proved for every configuration with paths < 2^16 bytes and every schedule: C12_codec, C12_version (whoever succeeds holds min(client,3)), C12_same_memory (whoever succeeds maps the client's two objects), C12_both_ends_partial_v3 (with the V3 acknowledgement a successful client implies a server initialiser that mapped that memory), C12_fault_timer / C12_fault_release / C12_fault_files (return by the timer event; mappings and the client's files released on error). Refuted with machine-checked witnesses, each reproduced on the real code: success-on-both-ends-or-error-on-both (V2 has no acknowledgement), nothing-left-behind (stalled peer: initialiser goroutine blocked in a raw read + dup'ed descriptor; late peer: mapping after the timeout), codec without the 2^16 bound.",
+    "level_text": "PARTIAL. Proved for every configuration with paths < 2^16 bytes and every schedule: C12_codec, C12_version (whoever succeeds holds min(client,3)), C12_same_memory (whoever succeeds maps the client's two objects), C12_both_ends_partial_v3 (with the V3 acknowledgement a successful client implies a server initialiser that mapped that memory), C12_fault_timer (return once the timer fired and the shut-down goroutine finished), C12_no_residue (ANY error return, the timeout included, leaves no mapping, no dup'ed descriptor and no initialiser goroutine — provable since newSession/initProtocol shut the socket down, wait for the goroutine and close the descriptor; the former counter-examples, stalled peer and late peer, are regression scenarios), C12_fault_files. Refuted with machine-checked witnesses reproduced on the real code: success-on-both-ends-or-error-on-both (V2 has no acknowledgement), codec without the 2^16 bound.",
     "level_note": "Observed, not proved: kernel fd passing and mmap identity (write-through/read-back across the two mappings, also between two processes), timers (elapsed time vs InitializeTimeout with generous slack), descriptor/mapping/file release (census of /proc/self/fd, /proc/self/maps, /dev/shm). Model granularity: one step = one blocking read plus the writes up to the next read; writes of these few bytes never block; initialiser keys 2/3 are literals of protocol_initializer.go (not exported by G).",
 }
 
@@ -21,6 +21,7 @@ WHAT = {
     "C12:error-path-leaves-mapping": "after newSession returned an error the process still maps the session's shared memory",
     "C12:error-path-leaves-file": "after newSession returned an error the session's /dev/shm file is still there",
     "C12:error-path-leaves-memfd-descriptor": "after newSession returned an error the client's memfd is still open",
+    "C12:late-peer-after-timeout-leaks-mapping": "a peer that sends valid metadata after the server's InitializeTimeout: the initialiser goroutine, never cancelled, maps the shared memory after newSession returned the timeout error; nobody unmaps it",
     "C12:error-path-leaves-received-descriptor": "server received an SCM_RIGHTS message with the wrong number of descriptors: it reports an error and never closes the descriptor(s) it did receive",
 }
 
@@ -55,8 +56,8 @@ def case_to_coq(c):
             files.append("(%s, 11)" % zl(c["q"]))
         if c["file_b"]:
             files.append("(%s, 22)" % zl(c["b"]))
-        return ("HPeer {| pc_client := %s; pc_cfg := %s; pc_script := %s; pc_close := %s; pc_files := %s; pc_obs_frames := %s; pc_obs_class := %d; pc_obs_ver := %d; pc_obs_mapped := %s |}"
-                % (b(c["client"]), config(c), core.coq_list([frame(f) for f in c["script"] or []]), b(c["close"]),
+        return ("HPeer {| pc_client := %s; pc_cfg := %s; pc_script := %s; pc_close := %s; pc_late := %s; pc_files := %s; pc_obs_frames := %s; pc_obs_class := %d; pc_obs_ver := %d; pc_obs_mapped := %s |}"
+                % (b(c["client"]), config(c), core.coq_list([frame(f) for f in c["script"] or []]), b(c["close"]), b(c.get("late")),
                    core.coq_list(files), core.coq_list([frame(f) for f in c["frames"] or []]), c["class"], c["obs_ver"], b(c["mapped"])))
     if k in ("pair", "xproc"):
         return ("HPair {| pp_cfg := %s; pp_sched := %d; pp_c_class := %d; pp_s_class := %d; pp_c_ver := %d; pp_s_ver := %d; pp_same := %s |}"
